@@ -5,6 +5,7 @@
   of `types.Equal_Q` (tied to the Go code by the `eq` correspondence engine on every run), `SEq` the
   mathematical structural equality of Spec/StructEq.lean, `Data` the data domain of the property.
 -/
+import LispModel.Proofs.MetaLaws
 import LispModel.Equal
 import LispModel.Spec.StructEq
 import LispModel.Proofs.StructEq
@@ -90,5 +91,18 @@ example : equalQ (.map [("a", .list [.int 1, .nil] none), ("ʞb", .set ["x", "y"
 
 /-- the defect repaired by the D8 fix stays machine-checked against the old code -/
 example : equalQ (.map [("ʞa", .nil)]) (.map [("ʞb", .nil)]) = false := by decide
+
+
+open LispModel.Meta in
+/-- metadata is not part of a value: `=` answers the same with and without it, on either side, at any depth
+    (model of values with metadata: LispModel/Meta.lean) -/
+theorem equality_ignores_metadata {x m y : MVal} (h : withMeta x m = .ok y) (z : MVal) :
+    equalQ (erase y) (erase z) = equalQ (erase x) (erase z) ∧
+    equalQ (erase z) (erase y) = equalQ (erase z) (erase x) := equal_ignores_meta h z
+
+open LispModel.Meta in
+/-- `Equal_Q` run on values that carry metadata anywhere inside answers what `equalQ` answers on the bare values -/
+theorem equality_with_nested_metadata (a b : MVal) (r : Bool) (h : mEqual a b = .ok r) :
+    r = equalQ (erase a) (erase b) := mEqual_sound a b r h
 
 end LispModel.Props.C14
